@@ -118,3 +118,26 @@ def holdsC20_block (opener closer oneLiner : Str) (contents : List Str) (rendere
   else if ls = opener :: contents ++ [closer] then [] else ["block"]
 
 end Spec
+
+namespace Spec
+open Py
+
+/-! ## C13 -/
+
+/-- the eight file names of a complete result -/
+def expectedFileNames (shellName filePrefix : Str) : List Str :=
+  [shellName ++ L ".hh", shellName ++ L ".cc"] ++
+  [L "_StrictPort.hh", L "_ILog.hh", L "_MiscUtils.hh", L "_MetaHelpers.hh", L "_MultiClientSelector.hh",
+   L "_MutexWrapped.hh"].map (fun s => filePrefix ++ s)
+
+/-- outcome classes a build may have: a complete result or one of the library's own errors -/
+def outcomeAllowedC13 (tag : String) : Bool := tag = "ok" || tag.startsWith "lib:"
+
+/-! ## C19 (files): the code projection -/
+
+/-- a line of code: not blank and not a `//` comment line -/
+def isCodeLine (l : Str) : Bool := !isBlank l && !(L "//").isPrefixOf (lstrip l)
+
+def codeOf (contents : Str) : List Str := (splitlines contents).filter isCodeLine
+
+end Spec
